@@ -95,6 +95,22 @@ func cmdCheck(args []string) int {
 	}
 	t0 := time.Now()
 	vd := verifDir()
+	// the checker itself must never crash into an exit status that means nothing: an internal
+	// failure is reported as a generation error (fail closed, exit 1, VIOLATION line)
+	defer func() {
+		if r := recover(); r != nil {
+			if os.Getenv("GOVC_PANIC") != "" {
+				panic(r)
+			}
+			rdir := filepath.Join(vd, "replays", def.ID)
+			os.MkdirAll(rdir, 0o755)
+			path := filepath.Join(rdir, "generation-internal.json")
+			writeJSON(path, map[string]any{"property": def.ID, "obligation": "generation", "error": fmt.Sprint(r),
+				"explanation": "the checker failed internally while generating or discharging the obligations; this fails closed"})
+			fmt.Printf("VIOLATION property=%s replay=%s obligation=generation %s no-failing-input-found\n", def.ID, path, oneLine(fmt.Sprint(r)))
+			os.Exit(1)
+		}
+	}()
 	cfg := &SolverCfg{QuickTimeout: 8 * time.Second, FullTimeout: 60 * time.Second, CacheDir: filepath.Join(vd, ".cache"), NoCache: os.Getenv("VERIF_NOCACHE") == "1"}
 	if *tier == "thorough" {
 		cfg.Agree = true
